@@ -6,7 +6,9 @@ Theorems (lean/Amoco/Props/C20.lean): `read_program_total`, `constructors_raise_
 PE / Mach-O / COFF at header level).  Tie (correspondence + property oracle) on every run:
   random data, prefix truncations and header/table corruptions of the shipped samples, synthesised
   ELF images (valid, truncated, corrupted), generated HEX / SREC streams (valid, corrupted), crafted
-  adversarial headers, structure-aware corruptions (every field of the header chains, load commands,
+  adversarial headers, valid HEX / SREC images of many sizes and structure-aware corruptions of text records (c20_extra.py: every
+  character of every record over the alphabet of its field, count / type / address at boundary values with a consistent checksum),
+  structure-aware corruptions (every field of the header chains, load commands,
   import / export / relocation / symbol / dynamic tables and bind-opcode streams of the samples and of
   synthesised images set to boundary values, one at a time) → real `amoco.system.core.read_program(bytes)` outcome (class of the object /
   escaping exception class + raising function / wall time) vs the model:
@@ -20,6 +22,7 @@ raising site is a new signature.
 import sys, os, glob, json, struct, traceback
 from common import *
 import fmt_real as R, fmt_gen as G, fmt_oracle as O
+import c20_extra as X
 
 TIME_LIMIT = 8.0          # seconds per call; the samples take milliseconds
 
@@ -45,6 +48,7 @@ def install_alloc_watch():
         if line.startswith("VmSize:"):
             vm = int(line.split()[1]) * 1024
     soft, hard = resource.getrlimit(resource.RLIMIT_AS)
+    install_alloc_watch.saved = (soft, hard)
     resource.setrlimit(resource.RLIMIT_AS, (vm + ADDRESS_SPACE, hard))
     for mod, name in ((elf, "ElfError"), (pe, "PEError"), (macho, "MachOError"), (coff, "COFFError")):
         cls = getattr(mod, name)
@@ -230,6 +234,15 @@ def build_corpus(r, quick):
             if ls[i].strip():
                 k, ls[i] = G.corrupt_line(r, ls[i].rstrip(b"\r"), "srec")
                 yield ("srec-corrupt", b"\n".join(ls), None)
+    # valid HEX / SREC images of many sizes (the magic-less formats tried before them must reject text whatever its length),
+    # smallest first so that the replay case of a failure is the smallest one met
+    rx = rng("C20.text")
+    for k, d, e in sorted(X.valid_images(rx, 110 if quick else 1000, hi=38000 if quick else 90000), key=lambda x: len(x[1])):
+        yield (k, d, e)
+    # structure-aware corruptions of text records: every character of every record of streams holding every record type over the
+    # alphabet of its field, count / type / address fields at boundary values with the checksum recomputed, one at a time
+    for k, d in X.line_corruptions(rx, quota=6 if quick else None, data_positions=8 if quick else None):
+        yield (k, d, None)
 
 
 def allowed(mod):
@@ -301,7 +314,7 @@ def main(tier):
                     mod_ok = False
                 else:
                     mod_ok = True
-                case = {"kind": kind, "data": data.hex() if len(data) <= 65536 else data[:65536].hex() + "...", "len": len(data)}
+                case = {"kind": kind, "data": data.hex() if len(data) <= 65536 or kind.endswith("-image") else data[:65536].hex() + "...", "len": len(data)}
                 # ---- property oracle -----------------------------------------------------------------
                 if "exn" in real:
                     sig = "C20:%s:%s:%s" % (real["fmt"], real["exn"], real["loop"] if real["exn"] == "timeout" else real["site"])
@@ -333,6 +346,22 @@ def main(tier):
         if first:
             ck.sample({"in": [first[0][0], first[0][1].hex()[:64]], "model": first[1]})
             ck.sample({"in": [last[0][0], last[0][1][:48].decode("latin1")], "model": last[1]})
+    # PE / Mach-O header stages: Lean models (Model/Pe.lean, Model/Macho.lean; pe_ctor_total, pe_sections_bounded, macho_walker_total ...),
+    # each tied by its own correspondence; HEX / SREC allocation bounds measured on the real objects (hex_alloc_bounded, srec_alloc_bounded)
+    import pe_check, macho_check, c20_alloc
+    from c14 import audit_extra
+    if getattr(install_alloc_watch, "saved", None):
+        # the address-space bound of the allocation watch is inherited by child processes: the model drivers started below
+        # (Lean runtime reserves thread stacks) need the original limit back; allocation stays watched through the error classes
+        import resource
+        resource.setrlimit(resource.RLIMIT_AS, install_alloc_watch.saved)
+    corr_pe, corr_macho = [], []
+    pe_check.run_c20(ck, tier, corr_pe)
+    macho_check.run_c20(ck, tier, corr_macho)
+    audit_extra(ck, "C14Macho")
+    c20_alloc.run(ck, tier)
+    for name, cl in (("pe", corr_pe), ("macho", corr_macho)):
+        ck.oblige("correspondence %s constructor (header stage) ~ Lean model" % name, not cl, "%d disagreements" % len(cl))
     for b in broken:
         ck.report("C20:proof-obligation", "proof obligation broken: %s" % b[:300], "proof-obligation", b[:2000], failing_input_found=False)
     if corr:
@@ -349,7 +378,13 @@ def main(tier):
                    "compiled Lean driver drv_struct (evaluation of the model definitions)"]
     return ck.finish("random data (half with a format magic in front), every short prefix and sampled long prefixes of each shipped sample, random byte corruptions of "
                      "the samples (70% in the first 1 KiB), synthesised ELF images valid / truncated / corrupted, generated HEX and SREC streams valid / corrupted, "
-                     "crafted degenerate headers; non-trivial = identified as a format other than the raw fallback")
+                     "crafted degenerate headers; valid Intel-HEX and S-record images of many sizes (64 B .. 38 KB of data in quick, .. 90 KB in thorough: log-uniform sizes, "
+                     "powers of two and their neighbours, runs of consecutive sizes; LF / CRLF, 1..255 bytes per record, S1/S2/S3, with and without header / count / "
+                     "start records) that must be identified as HEX / SREC and not claimed by a magic-less format tried earlier; structure-aware corruptions of text "
+                     "records (streams holding every record type; every character of every record over the alphabet of its field - start code, type digit 0-9, hex "
+                     "digits and characters outside the alphabet - exhaustive for start / type, sampled per field for count / address / data / checksum in quick; "
+                     "count, type and address fields at boundary values with the checksum recomputed; truncated and extended records; each both inside its stream and "
+                     "as a lone first line); non-trivial = identified as a format other than the raw fallback")
 
 
 if __name__ == "__main__":
